@@ -2,7 +2,7 @@
 import numpy as np
 
 from core import enc, q, user_fn_spec
-from gen import SeqGen, canonical_names, basename
+from gen import arbify, SeqGen, canonical_names, basename
 
 ID = "C20"
 HEAP_SUMMARY = True      # end every program with the reference-level observation (BB.Model.Heap vs id() walk)
@@ -21,7 +21,18 @@ ASSUMPTIONS = ["blueprint channels only (the property's domain)", "blueprints ar
 
 FN_PARAMS = {"ramp": ["start", "stop"], "sine": ["freq", "ampl", "off", "phase"], "gaussian": ["ampl", "sigma", "mu", "offset"],
              "gsc": ["ampl", "sigma", "mu", "offset"], "const": ["level"], "lin2": ["a", "b"], "poly4": ["a", "b", "c", "d"],
-             "pi2pulse": ["ampl"], "x9y": ["u", "v"], "lin2~": ["b", "a"]}
+             "pi2pulse": ["ampl"], "x9y": ["u", "v"], "lin2~": ["b", "a"], "arb": ["func", "kwargs"]}
+
+
+def argval(r, f, values=(0.375, -0.625, 1.0)):
+    """{"arg": .., "value": ..} of a changeArg on a segment of function key f: a numeric value for a numeric parameter; for
+    PulseAtoms.arb_func another registered user function / keyword dict"""
+    import userfns
+    a = r.choice(FN_PARAMS[f])
+    if f == "arb":
+        v = userfns.ARB_FUNCS[r.choice([101, 102])] if a == "func" else dict(userfns.KW_POOL[r.choice([201, 202, 203, 204])])
+        return {"arg": enc(a if r.random() < 0.7 else FN_PARAMS[f].index(a)), "value": enc(v)}
+    return {"arg": enc(a), "value": enc(r.choice(list(values)))}
 
 
 def seg_table(bops):
@@ -30,7 +41,7 @@ def seg_table(bops):
     for o in bops:
         if o["op"] == "bp.insert":
             fk = o["fn"] if isinstance(o["fn"], str) else o["fn"]["name"]
-            nm = o["name"]["s"] if o.get("name") else {"gsc": "gaussian_smooth_cutoff"}.get(fk, fk)
+            nm = o["name"]["s"] if o.get("name") else {"gsc": "gaussian_smooth_cutoff", "arb": "arb_func"}.get(fk, fk)
             raw.append((nm, fk))
     names = canonical_names([basename(n) for n, _ in raw])
     return [(n, fk) for n, (_, fk) in zip(names, raw)]
@@ -43,8 +54,7 @@ def bp_mutation(g, bid, segs, SR):
     k = r.choice(["arg", "arg", "dur", "dur", "insert", "remove", "segmark", "rmsegmark", "marker", "SR"])
     if k == "arg" and real:
         n, f = r.choice(real)
-        a = r.choice(FN_PARAMS[f])
-        return [{"op": "bp.changeArg", "id": bid, "name": n, "arg": enc(a), "value": enc(r.choice([0.375, -0.625, 3, 1.0]))}], None
+        return [{"op": "bp.changeArg", "id": bid, "name": n, **argval(r, f, (0.375, -0.625, 3, 1.0))}], None
     if k == "dur" and real:
         n, f = r.choice(real)
         if r.random() < 0.4:
@@ -95,6 +105,7 @@ def case(g, tier, ci):
     muts = []      # list of (ops, undo)
     if which == "bp":
         bops, info = g.blueprint("a", SR=SR, nseg=(1, 4), kinds=("ramp", "sine", "gaussian", "user"), waits=0.15, aligned=True)
+        arbify(r, bops, p=0.25, keep_first=False)
         segs = seg_table(bops)
         ops = bops + [{"op": "bp.copy", "id": "a", "to": "b"}]
         for _ in range(r.choice([0, 1, 1, 1, 2, 3, 4])):
@@ -129,8 +140,7 @@ def case(g, tier, ci):
             real = [(n, f) for n, f in segs if f != "waituntil"]
             if k == "arg" and real:
                 n, f = r.choice(real)
-                ops.append({"op": "el.changeArg", "id": side, "ch": ch, "name": n, "arg": enc(r.choice(FN_PARAMS[f])),
-                            "value": enc(r.choice([0.375, -0.625, 1.0]))})
+                ops.append({"op": "el.changeArg", "id": side, "ch": ch, "name": n, **argval(r, f)})
             elif k == "dur" and len(chans) == 1 and real:
                 n, f = r.choice(real)
                 ops.append({"op": "el.changeDur", "id": side, "ch": ch, "name": n, "dur": enc(r.choice([5, 7]) / SR)})
@@ -197,7 +207,7 @@ def case(g, tier, ci):
                 if real:
                     n, f = r.choice(real)
                     ops.append({"op": "sq.elChangeArg", "id": side, "pos": pos, "ch": ch, "name": n,
-                                "arg": enc(r.choice(FN_PARAMS[f])), "value": enc(r.choice([0.375, -0.625, 1.0]))})
+                                **argval(r, f)})
         else:
             ops.append(r.choice([{"op": "sq.points", "id": side}, {"op": "sq.duration", "id": side}, {"op": "sq.check", "id": side},
                                  {"op": "sq.forge", "id": side, "delays": True, "filters": True, "time": False},
